@@ -43,13 +43,14 @@ class Check(PropertyCheck):
     def parts(self, n):
         out = []
         blocks = [clean(b) for b in gen.bundled_blocks()]
-        blocks = [b for b in blocks if b and all(ord(c) < 0x2E80 for c in b)]
+        blocks = [b for b in blocks if b]
         for _ in range(n):
             if self.rng.chance(1, 4) and blocks:
                 out.append(self.rng.choice(blocks))
             else:
                 g = gen.random_grid(self.rng, self.rng.range(1, 14), self.rng.range(1, 7),
-                                    gen.DRAW_ASCII + gen.LABEL[:20] + (gen.GLYPHS if self.rng.chance(1, 3) else ""),
+                                    gen.DRAW_ASCII + gen.LABEL[:20] + (gen.GLYPHS if self.rng.chance(1, 3) else "")
+                                    + (gen.CJK if self.rng.chance(1, 3) else ""),
                                     self.rng.choice([20, 45, 70, 95]))
                 g = clean(g)
                 if g:
@@ -71,7 +72,7 @@ class Check(PropertyCheck):
         """returns (combined text, (dx, dy) of b in cells)"""
         la = a.split("\n")
         if mode == "side":
-            wa = max(len(l) for l in la)
+            wa = max(gen.dispw(l) for l in la)
             return gen.side_by_side(a, b, gap), (wa + gap, 0)
         return a + "\n" * (gap + 1) + b, (0, len(la) + gap)
 
